@@ -30,7 +30,17 @@ type tok =
   | TWrite of z list | TRead of int | TNext of string | TSeek of string * string
   | TTidy | TReset | TGrow of string
 
+(* q<n>/<tok> = Buffer.ReadOnce of n bytes whose reader first performs <tok> on the same buffer:
+   in the model the inner op, then the Write of the delivered bytes *)
+let expand_q (t : string) : string list =
+  if t <> "" && t.[0] = 'q' then
+    match String.index_opt t '/' with
+    | Some k -> [String.sub t (k + 1) (String.length t - k - 1); "w" ^ String.sub t 1 (k - 1)]
+    | None -> [t]
+  else [t]
+
 let parse_toks (toks : string list) : tok list =
+  let toks = List.concat_map expand_q toks in
   let written = ref 0 in
   List.map (fun t ->
     if t = "" then raise (Bad_op t) else
